@@ -848,7 +848,9 @@ Qed.
 Lemma replenish_deposits_nonneg bal accts target d :
   d ∈ replenish_deposits bal accts target → 0 ≤ d_amt d.
 Proof.
-  unfold replenish_deposits. intros (a & -> & _)%elem_of_list_fmap. simpl.
+  unfold replenish_deposits. generalize (∅ : gmap N Z) as pending.
+  induction accts as [|a rest IH]; simpl; intros pending; [by intros ?%elem_of_nil|].
+  intros [->|?]%elem_of_cons; [|by eapply IH]. simpl.
   case_match eqn:E; bsimp; lia.
 Qed.
 
